@@ -254,9 +254,9 @@ class MetricPickleReceiver(MetricReceiver, Int32StringReceiver):
   def stringReceived(self, data):
     try:
       datapoints = self.unpickler.loads(data)
-    # Pickle can throw a wide range of exceptions
-    except (pickle.UnpicklingError, ValueError, IndexError, ImportError,
-            KeyError, EOFError) as exc:
+    # Pickle can throw a wide range of exceptions (a corrupt frame may also raise
+    # AttributeError, TypeError, struct.error, OverflowError, ...)
+    except Exception as exc:
       log.listener('invalid pickle received from %s, error: "%s", ignoring' % (
                    self.peerName, exc))
       return
